@@ -450,3 +450,336 @@ Print Assumptions c10_normal_trackers_are_fixed.
 Print Assumptions c10_stored_trackers_are_fixed.
 Print Assumptions c10_own_parser_roundtrip_normal_trackers.
 Print Assumptions c10_normal_tracker_instances.
+
+(* ================================================================== X12: String::from_utf8_lossy, concretely *)
+
+(** In [c10_own_parser_roundtrip] Rust's `String::from_utf8_lossy` (form_urlencoded::parse applies it to every percent-decoded
+    key and value) enters through two hypotheses: it returns ASCII text unchanged and it returns the link's own fields
+    unchanged. Model/Utf8.v models the conversion as std implements it - one iteration of the `while` loop of
+    `Utf8Chunks::next` is [Utf8.scan1]; [Utf8.lossy] copies well-formed sequences and replaces every invalid part (a maximal
+    subpart, Unicode 3.9) by EF BF BD; [Utf8.chunks] / [Utf8.from_utf8_lossy] follow the iterator and String::from_utf8_lossy
+    literally - and Proofs/Utf8Proofs.v proves, for ALL byte strings, what the hypotheses said and more. ./check C10 compares
+    [Utf8.lossy] with the real parser through the `magnet_parse` hook and with CPython's `errors="replace"` decoder. *)
+From Imdl Require Model.Utf8 Proofs.Utf8Proofs Proofs.Utf8Agree Model.Crash Model.Peer Model.Verify.
+From Imdl Require Import Model.MagnetLossy Proofs.MagnetUtf8.
+
+(** valid UTF-8 comes back unchanged; the result is always valid UTF-8; hence idempotence; and the conversion changes a
+    byte string exactly when it is not valid UTF-8 *)
+Check Utf8Proofs.lossy_valid : forall s, Utf8.utf8_valid s = true -> Utf8.lossy s = s.
+Theorem c10_lossy_fixes_valid_utf8 : forall s, Utf8.utf8_valid s = true -> Utf8.lossy s = s.
+Proof. exact Utf8Proofs.lossy_valid. Qed.
+
+Check Utf8Proofs.valid_lossy : forall s, Utf8.utf8_valid (Utf8.lossy s) = true.
+Theorem c10_lossy_yields_valid_utf8 : forall s, Utf8.utf8_valid (Utf8.lossy s) = true.
+Proof. exact Utf8Proofs.valid_lossy. Qed.
+
+Check Utf8Proofs.lossy_idempotent : forall s, Utf8.lossy (Utf8.lossy s) = Utf8.lossy s.
+Theorem c10_lossy_idempotent : forall s, Utf8.lossy (Utf8.lossy s) = Utf8.lossy s.
+Proof. exact Utf8Proofs.lossy_idempotent. Qed.
+
+Check Utf8Proofs.lossy_fixed_iff : forall s, Utf8.lossy s = s <-> Utf8.utf8_valid s = true.
+Theorem c10_lossy_fixed_iff_valid : forall s, Utf8.lossy s = s <-> Utf8.utf8_valid s = true.
+Proof. exact Utf8Proofs.lossy_fixed_iff. Qed.
+
+Check Utf8Proofs.valid_ascii : forall s, Forall (fun b => b < 128) s -> Utf8.utf8_valid s = true.
+Theorem c10_ascii_is_valid_utf8 : forall s, Forall (fun b => b < 128) s -> Utf8.utf8_valid s = true.
+Proof. exact Utf8Proofs.valid_ascii. Qed.
+
+(** a valid prefix is copied and has no influence on what follows it *)
+Check Utf8Proofs.lossy_app_valid : forall a b, Utf8.utf8_valid a = true -> Utf8.lossy (a ++ b) = a ++ Utf8.lossy b.
+Theorem c10_lossy_after_valid_prefix : forall a b, Utf8.utf8_valid a = true -> Utf8.lossy (a ++ b) = a ++ Utf8.lossy b.
+Proof. exact Utf8Proofs.lossy_app_valid. Qed.
+
+Check Utf8Proofs.valid_app : forall a b, Utf8.utf8_valid a = true -> Utf8.utf8_valid (a ++ b) = Utf8.utf8_valid b.
+Theorem c10_valid_prefix_validity : forall a b, Utf8.utf8_valid a = true -> Utf8.utf8_valid (a ++ b) = Utf8.utf8_valid b.
+Proof. exact Utf8Proofs.valid_app. Qed.
+
+(** nothing shrinks, nothing grows beyond a factor of three *)
+Check Utf8Proofs.lossy_length : forall s, (length s <= length (Utf8.lossy s) <= 3 * length s)%nat.
+Theorem c10_lossy_length_bounds : forall s, (length s <= length (Utf8.lossy s) <= 3 * length s)%nat.
+Proof. exact Utf8Proofs.lossy_length. Qed.
+
+(** sequence by sequence: [Utf8.pieces] cuts any byte string into well-formed sequences (1-4 bytes) and invalid parts
+    (1-3 bytes); the conversion renders the pieces one by one; and the output, cut again, consists of the same well-formed
+    sequences in the same order with exactly one U+FFFD in the place of each invalid part - a replacement never merges with
+    a neighbour or with another replacement, nothing is dropped, nothing is added *)
+Check Utf8Proofs.pieces_concat : forall s, concat (map snd (Utf8.pieces s)) = s.
+Theorem c10_pieces_partition_the_input : forall s, concat (map snd (Utf8.pieces s)) = s.
+Proof. exact Utf8Proofs.pieces_concat. Qed.
+
+Check Utf8Proofs.pieces_shape : forall s,
+  Forall (fun p : bool * list N => if fst p return Prop then Utf8.one_sequence (snd p) = true /\ (1 <= length (snd p) <= 4)%nat
+                                   else (1 <= length (snd p) <= 3)%nat) (Utf8.pieces s).
+Theorem c10_pieces_shape : forall s,
+  Forall (fun p : bool * list N => if fst p return Prop then Utf8.one_sequence (snd p) = true /\ (1 <= length (snd p) <= 4)%nat
+                                   else (1 <= length (snd p) <= 3)%nat) (Utf8.pieces s).
+Proof. exact Utf8Proofs.pieces_shape. Qed.
+
+Check Utf8Proofs.lossy_pieces : forall s, Utf8.lossy s = flat_map Utf8.render (Utf8.pieces s).
+Theorem c10_lossy_renders_the_pieces : forall s, Utf8.lossy s = flat_map Utf8.render (Utf8.pieces s).
+Proof. exact Utf8Proofs.lossy_pieces. Qed.
+
+Check Utf8Proofs.valid_pieces : forall s, Utf8.utf8_valid s = forallb fst (Utf8.pieces s).
+Theorem c10_valid_iff_no_invalid_part : forall s, Utf8.utf8_valid s = forallb fst (Utf8.pieces s).
+Proof. exact Utf8Proofs.valid_pieces. Qed.
+
+Check Utf8Proofs.pieces_lossy : forall s,
+  Utf8.pieces (Utf8.lossy s) = map (fun p => (true, Utf8.render p)) (Utf8.pieces s).
+Theorem c10_replacements_never_merge : forall s,
+  Utf8.pieces (Utf8.lossy s) = map (fun p => (true, Utf8.render p)) (Utf8.pieces s).
+Proof. exact Utf8Proofs.pieces_lossy. Qed.
+
+(** counting: the number of U+FFFD inserted ([Utf8.replacements]: items of the iterator with a non-empty invalid part) is the
+    number of invalid parts; each is exchanged for three bytes; the U+FFFD sequences of the output are those of the input plus
+    one per invalid part *)
+Check Utf8Proofs.replacements_count : forall s, Utf8.replacements s = length (Utf8.invalid_parts s).
+Theorem c10_one_replacement_per_invalid_part : forall s, Utf8.replacements s = length (Utf8.invalid_parts s).
+Proof. exact Utf8Proofs.replacements_count. Qed.
+
+Check Utf8Proofs.lossy_length_exact : forall s,
+  (length (Utf8.lossy s) + length (concat (Utf8.invalid_parts s)) = length s + 3 * Utf8.replacements s)%nat.
+Theorem c10_lossy_length_exact : forall s,
+  (length (Utf8.lossy s) + length (concat (Utf8.invalid_parts s)) = length s + 3 * Utf8.replacements s)%nat.
+Proof. exact Utf8Proofs.lossy_length_exact. Qed.
+
+Check Utf8Proofs.fffd_count : forall s,
+  length (filter Utf8Proofs.is_fffd (Utf8.pieces (Utf8.lossy s))) =
+  (length (filter Utf8Proofs.is_fffd (Utf8.pieces s)) + Utf8.replacements s)%nat.
+Theorem c10_fffd_count : forall s,
+  length (filter Utf8Proofs.is_fffd (Utf8.pieces (Utf8.lossy s))) =
+  (length (filter Utf8Proofs.is_fffd (Utf8.pieces s)) + Utf8.replacements s)%nat.
+Proof. exact Utf8Proofs.fffd_count. Qed.
+
+(** what is replaced is a maximal subpart in the sense of the Unicode standard: where the scan breaks, the bytes accepted so
+    far are a proper initial subsequence of a well-formed sequence (or one byte that begins none), and the next byte, if there
+    is one, extends them neither to a longer such subsequence nor to a well-formed sequence. [proper_prefix] and
+    [one_sequence] mean what their names say *)
+Check Utf8Proofs.invalid_part_maximal : forall b0 r c, Utf8.scan1 b0 r = (false, c) ->
+  (Utf8.proper_prefix (b0 :: Utf8.taken c r) = true \/ (c = Utf8.I1 /\ Utf8.width b0 = 0)) /\
+  forall x t, Utf8.after c r = x :: t ->
+    Utf8.proper_prefix ((b0 :: Utf8.taken c r) ++ [x]) = false /\ Utf8.one_sequence ((b0 :: Utf8.taken c r) ++ [x]) = false.
+Theorem c10_invalid_parts_are_maximal_subparts : forall b0 r c, Utf8.scan1 b0 r = (false, c) ->
+  (Utf8.proper_prefix (b0 :: Utf8.taken c r) = true \/ (c = Utf8.I1 /\ Utf8.width b0 = 0)) /\
+  forall x t, Utf8.after c r = x :: t ->
+    Utf8.proper_prefix ((b0 :: Utf8.taken c r) ++ [x]) = false /\ Utf8.one_sequence ((b0 :: Utf8.taken c r) ++ [x]) = false.
+Proof. exact Utf8Proofs.invalid_part_maximal. Qed.
+
+Check Utf8Proofs.proper_prefix_spec : forall p,
+  Utf8.proper_prefix p = true <-> p <> [] /\ exists t, t <> [] /\ Utf8.one_sequence (p ++ t) = true.
+Theorem c10_proper_prefix_meaning : forall p,
+  Utf8.proper_prefix p = true <-> p <> [] /\ exists t, t <> [] /\ Utf8.one_sequence (p ++ t) = true.
+Proof. exact Utf8Proofs.proper_prefix_spec. Qed.
+
+Check Utf8Proofs.one_sequence_spec : forall p, Utf8.one_sequence p = true <-> Utf8.pieces p = [(true, p)].
+Theorem c10_one_sequence_meaning : forall p, Utf8.one_sequence p = true <-> Utf8.pieces p = [(true, p)].
+Proof. exact Utf8Proofs.one_sequence_spec. Qed.
+
+(** String::from_utf8_lossy written over the Utf8Chunks iterator, as in library/alloc/src/string.rs, is the
+    sequence-by-sequence conversion; the iterator's items cover the input, their valid parts are valid UTF-8, their non-empty
+    invalid parts are the invalid pieces *)
+Check Utf8Proofs.from_utf8_lossy_eq : forall s, Utf8.from_utf8_lossy s = Utf8.lossy s.
+Theorem c10_from_utf8_lossy_over_chunks : forall s, Utf8.from_utf8_lossy s = Utf8.lossy s.
+Proof. exact Utf8Proofs.from_utf8_lossy_eq. Qed.
+
+Check Utf8Proofs.chunks_concat : forall s, flat_map (fun c => fst c ++ snd c) (Utf8.chunks s) = s.
+Theorem c10_chunks_cover_the_input : forall s, flat_map (fun c => fst c ++ snd c) (Utf8.chunks s) = s.
+Proof. exact Utf8Proofs.chunks_concat. Qed.
+
+Check Utf8Proofs.chunks_valid : forall s, Forall (fun c => Utf8.utf8_valid (fst c) = true) (Utf8.chunks s).
+Theorem c10_chunks_valid_parts : forall s, Forall (fun c => Utf8.utf8_valid (fst c) = true) (Utf8.chunks s).
+Proof. exact Utf8Proofs.chunks_valid. Qed.
+
+Check Utf8Proofs.chunks_invalid_parts : forall s, filter Utf8.nonempty (map snd (Utf8.chunks s)) = Utf8.invalid_parts s.
+Theorem c10_chunks_invalid_parts : forall s, filter Utf8.nonempty (map snd (Utf8.chunks s)) = Utf8.invalid_parts s.
+Proof. exact Utf8Proofs.chunks_invalid_parts. Qed.
+
+(** one validity predicate: the validators of C07 / C10's end-to-end theorems, C08, C11 and C02 / C03 agree with it on every
+    byte string *)
+Check Utf8Agree.utf8_validators_agree : forall s,
+  Summary.utf8_valid s = Utf8.utf8_valid s /\ Crash.utf8_ok s = Utf8.utf8_valid s /\
+  Peer.utf8_valid s = Utf8.utf8_valid s /\ Verify.utf8_ok s = Utf8.utf8_valid s.
+Theorem c10_utf8_validators_agree : forall s,
+  Summary.utf8_valid s = Utf8.utf8_valid s /\ Crash.utf8_ok s = Utf8.utf8_valid s /\
+  Peer.utf8_valid s = Utf8.utf8_valid s /\ Verify.utf8_ok s = Utf8.utf8_valid s.
+Proof. exact Utf8Agree.utf8_validators_agree. Qed.
+
+(** the Unicode standard's own example of the practice (chapter 3, U+FFFD substitution of maximal subparts):
+    61 F1 80 80 E1 80 C2 62 80 63 80 BF 64  ->  61 FFFD FFFD FFFD 62 FFFD 63 FFFD FFFD 64; the iterator's items for it;
+    overlong, surrogate and out-of-range forms give one U+FFFD per byte; a truncated sequence gives one *)
+Example c10_lossy_examples :
+  Utf8.lossy [97; 241; 128; 128; 225; 128; 194; 98; 128; 99; 128; 191; 100] =
+    [97] ++ Utf8.repl ++ Utf8.repl ++ Utf8.repl ++ [98] ++ Utf8.repl ++ [99] ++ Utf8.repl ++ Utf8.repl ++ [100] /\
+  Utf8.chunks [97; 241; 128; 128; 225; 128; 194; 98; 128; 99; 128; 191; 100] =
+    [([97], [241; 128; 128]); ([], [225; 128]); ([], [194]); ([98], [128]); ([99], [128]); ([], [191]); ([100], [])] /\
+  Utf8.replacements [97; 241; 128; 128; 225; 128; 194; 98; 128; 99; 128; 191; 100] = 6%nat /\
+  Utf8.lossy [192; 175] = Utf8.repl ++ Utf8.repl /\ Utf8.lossy [224; 159; 128] = Utf8.repl ++ Utf8.repl ++ Utf8.repl /\
+  Utf8.lossy [237; 160; 128] = Utf8.repl ++ Utf8.repl ++ Utf8.repl /\
+  Utf8.lossy [244; 144; 128; 128] = Utf8.repl ++ Utf8.repl ++ Utf8.repl ++ Utf8.repl /\
+  Utf8.lossy [240; 159; 146] = Utf8.repl /\ Utf8.lossy [240; 159; 146; 169] = [240; 159; 146; 169] /\
+  Utf8.from_utf8_lossy [] = [] /\ Utf8.utf8_valid [195; 169; 230; 151; 165; 240; 159; 152; 128; 239; 191; 189] = true /\
+  Utf8.lossy [195; 169; 230; 151; 165; 240; 159; 152; 128] = [195; 169; 230; 151; 165; 240; 159; 152; 128] /\
+  Utf8.lossy (Utf8.lossy [102; 255; 195]) = Utf8.lossy [102; 255; 195] /\
+  Utf8.lossy ([195; 169] ++ [169; 195]) = [195; 169] ++ Utf8.lossy [169; 195] /\
+  Forall (fun b => b < 128) (B "plain ASCII") /\ Utf8.utf8_valid (B "plain ASCII") = true.
+Proof. repeat split; try (vm_compute; reflexivity). repeat constructor. Qed.
+
+(** second clause of C10 with nothing assumed about from_utf8_lossy: the hypotheses about [lossy] are replaced by the UTF-8
+    validity of the link's name, trackers and peers ([link_utf8]) - which holds of every MagnetLink, whose fields are Rust
+    Strings *)
+Check own_parse_print_utf8 : forall url_norm hp_norm l,
+  wf_link l -> length (l_ih l) = 20%nat -> link_utf8 l = true ->
+  Forall (fun t => url_norm t = Some t) (l_trackers l) ->
+  Forall (fun p => hp_norm p = Some p) (l_peers l) ->
+  own_parse Utf8.lossy url_norm hp_norm (print l) = Parsed (l_ih l) (l_name l) (l_trackers l) (l_peers l).
+Theorem c10_own_parser_roundtrip_utf8 : forall url_norm hp_norm l,
+  wf_link l -> length (l_ih l) = 20%nat -> link_utf8 l = true ->
+  Forall (fun t => url_norm t = Some t) (l_trackers l) ->
+  Forall (fun p => hp_norm p = Some p) (l_peers l) ->
+  own_parse Utf8.lossy url_norm hp_norm (print l) = Parsed (l_ih l) (l_name l) (l_trackers l) (l_peers l).
+Proof. exact own_parse_print_utf8. Qed.
+
+(** the same with X10's concrete url normaliser: trackers written in normal form are ASCII, so only the name and the peers
+    need to be valid UTF-8 and only the peers' typed parser remains a hypothesis *)
+Check own_parse_print_utf8_normal_trackers : forall ext hp_norm l,
+  wf_link l -> length (l_ih l) = 20%nat ->
+  opt_valid (l_name l) = true -> forallb is_normal_url (l_trackers l) = true -> forallb Utf8.utf8_valid (l_peers l) = true ->
+  Forall (fun p => hp_norm p = Some p) (l_peers l) ->
+  own_parse Utf8.lossy (u_url_norm_with ext) hp_norm (print l) = Parsed (l_ih l) (l_name l) (l_trackers l) (l_peers l).
+Theorem c10_own_parser_roundtrip_utf8_normal_trackers : forall ext hp_norm l,
+  wf_link l -> length (l_ih l) = 20%nat ->
+  opt_valid (l_name l) = true -> forallb is_normal_url (l_trackers l) = true -> forallb Utf8.utf8_valid (l_peers l) = true ->
+  Forall (fun p => hp_norm p = Some p) (l_peers l) ->
+  own_parse Utf8.lossy (u_url_norm_with ext) hp_norm (print l) = Parsed (l_ih l) (l_name l) (l_trackers l) (l_peers l).
+Proof. exact own_parse_print_utf8_normal_trackers. Qed.
+
+(** a witness with a non-ASCII name (e-acute, two CJK characters, an emoji, a literal U+FFFD), a tracker in normal form and
+    two peers *)
+Definition witness_link_utf8 : link :=
+  Link (repeat 171 20) (Some ([195; 169; 32; 38; 61] ++ [230; 151; 165; 230; 156; 172] ++ [240; 159; 152; 128] ++ [239; 191; 189; 37]))
+       [B "http://t.example/announce?x=1&y=%20+z#f"] [B "[::1]:80"; B "d.example:6881"] (index_set [3; 1; 3]).
+
+Example c10_own_parser_utf8_hypotheses_satisfiable :
+  wf_link witness_link_utf8 /\ length (l_ih witness_link_utf8) = 20%nat /\ link_utf8 witness_link_utf8 = true /\
+  opt_valid (l_name witness_link_utf8) = true /\ forallb is_normal_url (l_trackers witness_link_utf8) = true /\
+  forallb Utf8.utf8_valid (l_peers witness_link_utf8) = true /\
+  Forall (fun t => some_bytes t = Some t) (l_trackers witness_link_utf8) /\
+  Forall (fun p => some_bytes p = Some p) (l_peers witness_link_utf8) /\
+  run_parse_lossy (print witness_link_utf8) =
+    Parsed (l_ih witness_link_utf8) (l_name witness_link_utf8) (l_trackers witness_link_utf8) (l_peers witness_link_utf8).
+Proof.
+  split.
+  { unfold wf_link, wfb. cbn [witness_link_utf8 l_ih l_name l_trackers l_peers].
+    repeat split; [| intros n E; inversion E; subst | |];
+      repeat (apply Forall_cons || apply Forall_nil); vm_compute; reflexivity. }
+  split; [reflexivity|]. split; [vm_compute; reflexivity|]. split; [vm_compute; reflexivity|].
+  split; [vm_compute; reflexivity|]. split; [vm_compute; reflexivity|].
+  split; [repeat constructor|]. split; [repeat constructor|]. vm_compute. reflexivity.
+Qed.
+
+(** a name that is NOT valid UTF-8 after percent-decoding (a `dn` value a third party wrote as the percent-encoding of arbitrary
+    bytes): for every byte string the parser reports exactly [Utf8.lossy] of it - a valid UTF-8 string different from the bytes -
+    and infohash, trackers and peers are unaffected *)
+Check own_parse_print_any_name : forall url_norm hp_norm l,
+  wf_link l -> length (l_ih l) = 20%nat ->
+  forallb Utf8.utf8_valid (l_trackers l) = true -> forallb Utf8.utf8_valid (l_peers l) = true ->
+  Forall (fun t => url_norm t = Some t) (l_trackers l) ->
+  Forall (fun p => hp_norm p = Some p) (l_peers l) ->
+  own_parse Utf8.lossy url_norm hp_norm (print l) = Parsed (l_ih l) (option_map Utf8.lossy (l_name l)) (l_trackers l) (l_peers l).
+Theorem c10_own_parser_any_name : forall url_norm hp_norm l,
+  wf_link l -> length (l_ih l) = 20%nat ->
+  forallb Utf8.utf8_valid (l_trackers l) = true -> forallb Utf8.utf8_valid (l_peers l) = true ->
+  Forall (fun t => url_norm t = Some t) (l_trackers l) ->
+  Forall (fun p => hp_norm p = Some p) (l_peers l) ->
+  own_parse Utf8.lossy url_norm hp_norm (print l) = Parsed (l_ih l) (option_map Utf8.lossy (l_name l)) (l_trackers l) (l_peers l).
+Proof. exact own_parse_print_any_name. Qed.
+
+Check own_parse_print_invalid_name : forall url_norm hp_norm l n,
+  wf_link l -> length (l_ih l) = 20%nat -> l_name l = Some n -> Utf8.utf8_valid n = false ->
+  forallb Utf8.utf8_valid (l_trackers l) = true -> forallb Utf8.utf8_valid (l_peers l) = true ->
+  Forall (fun t => url_norm t = Some t) (l_trackers l) ->
+  Forall (fun p => hp_norm p = Some p) (l_peers l) ->
+  own_parse Utf8.lossy url_norm hp_norm (print l) = Parsed (l_ih l) (Some (Utf8.lossy n)) (l_trackers l) (l_peers l) /\
+  Utf8.lossy n <> n /\ Utf8.utf8_valid (Utf8.lossy n) = true.
+Theorem c10_own_parser_invalid_name : forall url_norm hp_norm l n,
+  wf_link l -> length (l_ih l) = 20%nat -> l_name l = Some n -> Utf8.utf8_valid n = false ->
+  forallb Utf8.utf8_valid (l_trackers l) = true -> forallb Utf8.utf8_valid (l_peers l) = true ->
+  Forall (fun t => url_norm t = Some t) (l_trackers l) ->
+  Forall (fun p => hp_norm p = Some p) (l_peers l) ->
+  own_parse Utf8.lossy url_norm hp_norm (print l) = Parsed (l_ih l) (Some (Utf8.lossy n)) (l_trackers l) (l_peers l) /\
+  Utf8.lossy n <> n /\ Utf8.utf8_valid (Utf8.lossy n) = true.
+Proof. exact own_parse_print_invalid_name. Qed.
+
+(** a witness: `fo` FF `o` E0 A0 (a lone FF, a truncated three-byte sequence at the end), one peer *)
+Definition witness_link_invalid_name : link :=
+  Link (repeat 171 20) (Some [102; 111; 255; 111; 224; 160]) [] [B "[::1]:80"] [].
+
+Example c10_invalid_name_hypotheses_satisfiable :
+  wf_link witness_link_invalid_name /\ length (l_ih witness_link_invalid_name) = 20%nat /\
+  l_name witness_link_invalid_name = Some [102; 111; 255; 111; 224; 160] /\
+  Utf8.utf8_valid [102; 111; 255; 111; 224; 160] = false /\
+  forallb Utf8.utf8_valid (l_trackers witness_link_invalid_name) = true /\
+  forallb Utf8.utf8_valid (l_peers witness_link_invalid_name) = true /\
+  Forall (fun t => some_bytes t = Some t) (l_trackers witness_link_invalid_name) /\
+  Forall (fun p => some_bytes p = Some p) (l_peers witness_link_invalid_name) /\
+  print witness_link_invalid_name = B "magnet:?xt=urn:btih:abababababababababababababababababababab&dn=fo%FFo%E0%A0&x.pe=[::1]:80" /\
+  run_parse_lossy (print witness_link_invalid_name) =
+    Parsed (repeat 171 20) (Some ([102; 111] ++ Utf8.repl ++ [111] ++ Utf8.repl)) [] [B "[::1]:80"] /\
+  run_parse_lossy (B "magnet:?dn=%c0%AF&xt=urn:btih:abababababababababababababababababababab&dn=a+%f0%9f%98") =
+    Parsed (repeat 171 20) (Some ([97; 32] ++ Utf8.repl)) [] [].
+Proof.
+  split.
+  { unfold wf_link, wfb. cbn [witness_link_invalid_name l_ih l_name l_trackers l_peers].
+    repeat split; [| intros n E; inversion E; subst | |];
+      repeat (apply Forall_cons || apply Forall_nil); vm_compute; reflexivity. }
+  split; [reflexivity|]. split; [reflexivity|]. split; [vm_compute; reflexivity|].
+  split; [reflexivity|]. split; [vm_compute; reflexivity|].
+  split; [repeat constructor|]. split; [repeat constructor|].
+  split; [vm_compute; reflexivity|]. split; vm_compute; reflexivity.
+Qed.
+
+(** whatever the text: every key and value MagnetLink::parse sees, and hence the name it reports, is valid UTF-8 *)
+Check form_pairs_valid : forall q,
+  Forall (fun kv => Utf8.utf8_valid (fst kv) = true /\ Utf8.utf8_valid (snd kv) = true) (form_pairs Utf8.lossy q).
+Theorem c10_query_pairs_are_valid_utf8 : forall q,
+  Forall (fun kv => Utf8.utf8_valid (fst kv) = true /\ Utf8.utf8_valid (snd kv) = true) (form_pairs Utf8.lossy q).
+Proof. exact form_pairs_valid. Qed.
+
+Check own_parse_name_valid : forall url_norm hp_norm text ih name trs prs,
+  own_parse Utf8.lossy url_norm hp_norm text = Parsed ih name trs prs -> opt_valid name = true.
+Theorem c10_parsed_name_is_valid_utf8 : forall url_norm hp_norm text ih name trs prs,
+  own_parse Utf8.lossy url_norm hp_norm text = Parsed ih name trs prs -> opt_valid name = true.
+Proof. exact own_parse_name_valid. Qed.
+
+Print Assumptions c10_lossy_fixes_valid_utf8.
+Print Assumptions c10_lossy_yields_valid_utf8.
+Print Assumptions c10_lossy_idempotent.
+Print Assumptions c10_lossy_fixed_iff_valid.
+Print Assumptions c10_ascii_is_valid_utf8.
+Print Assumptions c10_lossy_after_valid_prefix.
+Print Assumptions c10_valid_prefix_validity.
+Print Assumptions c10_lossy_length_bounds.
+Print Assumptions c10_pieces_partition_the_input.
+Print Assumptions c10_pieces_shape.
+Print Assumptions c10_lossy_renders_the_pieces.
+Print Assumptions c10_valid_iff_no_invalid_part.
+Print Assumptions c10_replacements_never_merge.
+Print Assumptions c10_one_replacement_per_invalid_part.
+Print Assumptions c10_lossy_length_exact.
+Print Assumptions c10_fffd_count.
+Print Assumptions c10_invalid_parts_are_maximal_subparts.
+Print Assumptions c10_proper_prefix_meaning.
+Print Assumptions c10_one_sequence_meaning.
+Print Assumptions c10_from_utf8_lossy_over_chunks.
+Print Assumptions c10_chunks_cover_the_input.
+Print Assumptions c10_chunks_valid_parts.
+Print Assumptions c10_chunks_invalid_parts.
+Print Assumptions c10_utf8_validators_agree.
+Print Assumptions c10_lossy_examples.
+Print Assumptions c10_own_parser_roundtrip_utf8.
+Print Assumptions c10_own_parser_roundtrip_utf8_normal_trackers.
+Print Assumptions c10_own_parser_utf8_hypotheses_satisfiable.
+Print Assumptions c10_own_parser_any_name.
+Print Assumptions c10_own_parser_invalid_name.
+Print Assumptions c10_invalid_name_hypotheses_satisfiable.
+Print Assumptions c10_query_pairs_are_valid_utf8.
+Print Assumptions c10_parsed_name_is_valid_utf8.
